@@ -23,7 +23,7 @@ template<> struct Gen<std::string> {
     std::string s;
     const size_t l = r.chance(0.08) ? 0 : static_cast<size_t>(r.range(1, 12));
     for (size_t i = 0; i < l; ++i) s += static_cast<char>('a' + r.below(26));
-    return s;
+    return s + long_pad(r);
   }
 };
 
